@@ -224,7 +224,7 @@ def gen_int_guards(rng, per_type=26, types=None):
                 blocks.append([tid("default"), EQ, tx(lit_int(dv))])
                 traits.append("Default")
                 default_arg = ("i", dv)
-            if j % 6 == 5:
+            if j % 6 == 5 or j % 12 == 9:       # (j % 12 == 9: const_fn next to a default the sanitizer changes)
                 blocks.append([tid("const_fn")])
                 # const fn cannot call closures: use paths only
                 blocks = [[(t[0], t[1], "p", t[3]) if t[0] == "fn" else
@@ -405,7 +405,7 @@ def gen_float_guards(rng, per_type=48, start=0):
                 blocks.append([tid("default"), EQ, tx(neg(e) if dt.startswith("-") else e)])
                 traits.append("Default")
                 default_arg = ("f", fbits(dt, is64))
-            if j % 6 == 5 and "C" not in shape:
+            if (j % 6 == 5 or j % 12 == 9) and "C" not in shape:
                 blocks.append([tid("const_fn")])
                 blocks = [[(t[0], t[1], "p", t[3]) if t[0] == "fn" else
                            (("g", [(u[0], u[1], "p", u[3]) if u[0] == "fn" else u for u in t[1]]) if t[0] == "g" else t)
@@ -465,7 +465,7 @@ STR_VAL_SETS = [
     ["max", "not_empty", "P0"], ["C"], ["R0p", "min"], ["not_empty", "min", "max", "P1", "R1"], ["R3"], ["R3p", "max"], ["min", "R3"],
     ["R2", "P0", "max", "min", "not_empty"], ["R4"], ["R4p", "max"],
     # a predicate that is only defined on what the rules written before it let through
-    ["not_empty", "P2"], ["not_empty", "max", "P2"],
+    ["not_empty", "P2"], ["not_empty", "max", "P2"], ["R5p"], ["min", "R5p"],
 ]
 REGEX_LITS = ["^[a-z]+$", "@", "^.{2,4}$", "b{2}", "(?i)^k[0-9]+$"]
 STR_DERIVES = ["Debug", "Clone", "PartialEq", "Eq", "PartialOrd", "Ord", "Hash", "FromStr", "AsRef",
@@ -511,6 +511,8 @@ def gen_str_guards(rng, n=160, start=0):
             blocks.append(block("validate", vitems))
         traits = list(STR_DERIVES)
         default_arg = None
+        if j % 5 == 2:
+            traits.remove("Ord")            # PartialOrd on its own
         if not vitems and j % 2 == 0:
             traits[traits.index("TryFrom")] = "From"
         if j % 3 == 0:
@@ -1009,6 +1011,18 @@ def gen_arb_floats(rng, tier, start=0):
             d.kinds = (lk, uk)
             d.default_arg = None
             decls.append(d)
+    # a `with` sanitizer beside validators: Arbitrary must be refused (the generator cannot know what the
+    # sanitizer does to a value it placed inside the bounds)
+    for ty in ("f32", "f64"):
+        for vitems in ([[tid("greater"), EQ, tx(spell_float(ty, "0.0", "lit", [], "lo"))]],
+                       [[tid("finite")], [tid("greater_or_equal"), EQ, tx(spell_float(ty, "0.5", "lit", [], "lo"))], [tid("less_or_equal"), EQ, tx(spell_float(ty, "9.5", "lit", [], "hi"))]]):
+            blocks = [block("sanitize", [[tid("with"), EQ, tfn(1, "p", "s")]]), block("validate", vitems), derive_block(["Debug", "Arbitrary"])]
+            d = Decl("af%d" % (start + len(decls)), ty, attr(blocks), env=[], tags={"arb", "float"})
+            d.bounds = []
+            d.shape = []
+            d.kinds = ("greater", "less")
+            d.default_arg = None
+            decls.append(d)
     return decls
 
 
@@ -1118,7 +1132,7 @@ def gen_msg_decls(rng, tier):
                 env = []
                 e = spell_int(ty, b, ["lit", "const", "paren", "usermod", "userassoc"][(bi + n) % 5], env, "b")
                 d = Decl("mi%d" % n, ty, attr([block("validate", [[tid(kind), EQ, tx(e)]]),
-                                               derive_block(["Debug", "FromStr"])]), env=env,
+                                               derive_block(["Debug", "FromStr", "Deserialize"])]), env=env,
                          name=["T", "Amount", "Px", "ExitCodeError", "Error"][n % 5], tags={"msg", "int"})
                 d.bounds = [b]
                 d.vkind = kind
@@ -1133,7 +1147,7 @@ def gen_msg_decls(rng, tier):
                 env = []
                 e = spell_float(ty, bt, ["lit", "const", "usermod", "lit", "const", "userassoc"][(bi + n) % 6], env, "b")
                 d = Decl("mf%d" % n, ty, attr([block("validate", [[tid(kind), EQ, tx(e)]]),
-                                               derive_block(["Debug", "FromStr"])]), env=env,
+                                               derive_block(["Debug", "FromStr", "Deserialize"])]), env=env,
                          name=["T", "Dist", "RoundingError"][n % 3], tags={"msg", "float"})
                 d.bounds = [fbits(bt, is64)]
                 d.vkind = kind
@@ -1147,7 +1161,7 @@ def gen_msg_decls(rng, tier):
                 env = []
                 e = spell_int("usize", b, sty, env, "b")
                 d = Decl("ms%d" % n, "String", attr([block("validate", [[tid(kind), EQ, tx(e)]]),
-                                                     derive_block(["Debug", "FromStr"])]), env=env,
+                                                     derive_block(["Debug", "FromStr", "Deserialize"])]), env=env,
                          name=["T", "Name", "UserFacingError"][n % 3], tags={"msg", "str"})
                 d.bounds = [b]
                 d.vkind = kind
@@ -1168,7 +1182,7 @@ def gen_msg_decls(rng, tier):
                 subj = [tid(kind), EQ, mk(bsub)]
                 comp = [tid(ck), EQ, mk(far)]
                 for first in (True, False):
-                    d = Decl("mc%d" % n, ty, attr([block("validate", [subj, comp] if first else [comp, subj]), derive_block(["Debug", "FromStr"])]),
+                    d = Decl("mc%d" % n, ty, attr([block("validate", [subj, comp] if first else [comp, subj]), derive_block(["Debug", "FromStr", "Deserialize"])]),
                              name=["T", "Level"][n % 2], tags={"msg", "float" if flt else "int"})
                     d.bounds = [fbits(bsub, FLOAT_TYPES[ty])] if flt else [bsub]
                     d.vkind = kind
@@ -1186,7 +1200,7 @@ def gen_msg_decls(rng, tier):
                 e = spell_int("usize", b, "lit" if first else "const", env, "b")
                 subj = [tid(kind), EQ, tx(e)]
                 d = Decl("ms%d" % n, "String", attr([block("validate", [subj, comp] if first else [comp, subj]),
-                                                     derive_block(["Debug", "FromStr"])]), env=env,
+                                                     derive_block(["Debug", "FromStr", "Deserialize"])]), env=env,
                          name=["T", "Name"][n % 2], tags={"msg", "str"})
                 d.bounds = [b]
                 d.vkind = kind
@@ -1244,7 +1258,8 @@ def gen_serde_decls(rng, tier):
         # leak into (de)serialization
         has_default = any(t[0] == "id" and t[1] == "default" for t in d.toks)
         keep = has_default and len(out) % 2 == 1
-        d.toks = replace_derive(d.toks, ["Debug", "Clone", "PartialEq", "Serialize", "Deserialize"] + conv + (["Default"] if keep else []),
+        parse = ["FromStr"] if d.family() in ("int", "float") else []
+        d.toks = replace_derive(d.toks, ["Debug", "Clone", "PartialEq", "Serialize", "Deserialize"] + conv + parse + (["Default"] if keep else []),
                                 keep_default=keep)
         d.id = "z" + d.id
         if d.name == "T":
